@@ -50,6 +50,19 @@ impl Distribution for DiscreteUniform {
             // the RNG requires max > min; the degenerate distribution has a single atom
             return self.lower as f64;
         }
+        // `alea::i64_in_range` forms `max + 1 - min` in i64, which overflows once the support has more
+        // than i64::MAX atoms: draw such ranges by rejection on the raw 64-bit word instead
+        let span = (self.upper as i128 - self.lower as i128 + 1) as u128;
+        if span > i64::MAX as u128 {
+            let words = u64::MAX as u128 + 1;
+            let limit = words / span * span;
+            loop {
+                let r = alea::u64() as u128;
+                if r < limit {
+                    return (self.lower as i128 + (r % span) as i128) as f64;
+                }
+            }
+        }
         alea::i64_in_range(self.lower, self.upper) as f64
     }
 }
